@@ -14,7 +14,8 @@
    instance.  Which string reaches which port through nested systems (the star rule) and the warning
    path are tied to the code by correspondence and checked per case against the per-nucleotide oracle. *)
 From Coq Require Import List String Ascii Arith Bool.
-From PC Require Import Base.Codes Comp.Syntax Comp.Compile Comp.EmitProofs Comp.Fix Comp.FixProofs Comp.FixComposite Sys.System Sys.FixFrame.
+From PC Require Import Base.Sexp.
+From PC Require Import Base.Codes Comp.Syntax Comp.Compile Comp.EmitProofs Comp.Fix Comp.FixProofs Comp.FixComposite Sys.System Sys.FixFrame Comp.FixShape Sys.DesSys Sys.FixSys Sys.FixSignalSpec.
 Import ListNotations.
 
 Theorem C12_position_is_intersection : forall old fixed k, List.length old = List.length fixed -> inter_consts old fixed = (k, FOk) ->
@@ -96,3 +97,47 @@ Theorem C12_double_star_cancels : forall f p comps sigs lens i oo name s cname p
   (OSys p (upd comps cname (OSys p2 (upd comps2 cname2 (fst (fix_signal f sub2 s2 fixed))) sigs2 lens2 i2 oo2)) sigs lens i oo, snd (fix_signal f sub2 s2 fixed)).
 Proof. exact double_star_cancels. Qed.
 Print Assumptions C12_double_star_cancels.
+
+(* "changes nothing else", every kind of entry at once: whatever entry of a fixed file is applied to a component and
+   whatever its outcome, the base table keeps its names, lengths and anonymity flags in order, and constraint strings keep
+   the lengths of their sequences and stay strings of the 15 codes - only constraint characters can differ *)
+Theorem C12_entry_changes_only_constraints : forall c bs kind name fixed,
+  let bs' := fst (fix_entry_comp c bs kind name fixed) in
+  map (fun nb => (fst nb, b_len (snd nb), b_anon (snd nb))) bs' = map (fun nb => (fst nb, b_len (snd nb), b_anon (snd nb))) bs /\
+  ((forall n b, In (n, b) bs -> List.length (b_const b) = b_len b) -> forall n b, In (n, b) bs' -> List.length (b_const b) = b_len b) /\
+  ((forall n b, In (n, b) bs -> codes_ok (b_const b) = true) -> forall n b, In (n, b) bs' -> codes_ok (b_const b) = true).
+Proof. exact fix_entry_comp_shape. Qed.
+Print Assumptions C12_entry_changes_only_constraints.
+
+(* the same for a whole fixed file on a (nested) system: the result is the same tree of instances - same prefixes, instance
+   names, signal tables, lengths and ports at every depth - whose components differ from the loaded ones only in
+   constraint characters (osame: set_bases with a table of the same shape) *)
+Theorem C12_file_changes_only_constraints : forall entries o o', sys_wf 12 o -> fix_all o entries = OK o' -> osame 12 o o'.
+Proof. exact fix_all_osame. Qed.
+Print Assumptions C12_file_changes_only_constraints.
+
+(* which string reaches which port, any nesting: whenever fixing a signal of a well-formed (nested) system succeeds, the
+   result is that of the leaf fixes, one per component port the signal is bound to at any depth, in binding order; the
+   string applied at a port is the given one reverse-complemented when the number of starred bindings above the port is
+   odd (flipn of the accumulated parity), and the port's own star is the star of the reference handed to the
+   component-level fix (C12_starred_domain / C12_composite_positions then say what that does to each position) *)
+Theorem C12_signal_fix_is_leaf_fixes : forall f o name fixed o', sys_wf f o -> fix_signal f o name fixed = (o', FOk) ->
+  run_leaves o (sig_leaves f o name false) fixed = (o', FOk).
+Proof. exact fix_signal_top. Qed.
+Print Assumptions C12_signal_fix_is_leaf_fixes.
+
+(* entries addressed by a qualified name instance-...-instance-name: the component-level fix is applied at the instance the
+   path leads to, and (C12_qualified_fix_changes_nothing_else) nowhere else *)
+Theorem C12_qualified_fix_is_fix_at_instance : forall k path f o n, List.length path < f ->
+  Forall (fun cn => ~ In "-"%char (chars cn)) path -> reaches o path ->
+  fix_at f o (qualify path n) k = apply_at o path (fun c => k c n).
+Proof. exact fix_at_is_apply_at. Qed.
+Print Assumptions C12_qualified_fix_is_fix_at_instance.
+
+(* a name that does not exist only produces a warning: whatever the kind of the entry, the object is left as it is and the
+   rest of the file is applied as if the entry were not there *)
+Theorem C12_unknown_name_only_warns : forall c kind name fixed rest,
+  ahas (c_bases c) name = false -> afind (c_sups c) name = None -> afind (c_strands c) name = None -> afind (c_structs c) name = None ->
+  fix_all (OComp c) ((kind, name, fixed) :: rest) = fix_all (OComp c) rest.
+Proof. exact unknown_name_is_skipped. Qed.
+Print Assumptions C12_unknown_name_only_warns.
